@@ -133,18 +133,3 @@ Proof.
   pose proof (find_conn_set_active _ _ _ Ef) as Hf. unfold set_active in Hf. rewrite Hc, Ef in Hf. inversion Hf as [Hcn].
   rewrite Hcn in Ea. simpl in Ea. discriminate.
 Qed.
-
-(* F14.4: a first Hello; the loginfo string of bus_connection_complete cannot be allocated: the connection
-   is counted for its user although it did not become active *)
-Theorem tight_hello_uid_count b c cn :
-  find_conn (b_conns b) c = Some cn -> c_active cn = false -> (b_maxconns b <=? b_uidcount b) = false ->
-  exists b', step_oom 8 b (EvHello c) = OOk b' [(c, MError ENoMemory)] /\
-             b_uidcount b' = b_uidcount b + 1 /\ b_conns b' = b_conns b /\ ~ same_state b' b.
-Proof.
-  intros Ef Ea Hlim.
-  pose proof (find_conn_id _ _ _ Ef) as Hid.
-  unfold step_oom, step_f, handler. rewrite Ef. unfold run_request, hello. rewrite Ea, Hid.
-  cbn -[N.leb]. rewrite Hlim. cbn. unfold cancelled. cbn.
-  eexists; split; [reflexivity|]. cbn. split; [reflexivity|]. split; [reflexivity|].
-  intros (_ & _ & _ & _ & _ & _ & _ & Hu & _). cbn in Hu. lia.
-Qed.
